@@ -1080,8 +1080,9 @@ Proof.
   pose proof (exec_actions_hstep InConstruct (body p 0) s2) as HS.
   destruct (exec_actions InConstruct s2 (body p 0)) as [s3 failed]. cbn [fst] in HS.
   pose proof (hs_inv _ _ HS I2) as I3.
+  destruct failed; [eapply CoreClk_Inv; [|exact I3]; coreclk|].
   set (s5 := set_ps PInit _).
-  assert (I5 : Inv s5) by (eapply CoreClk_Inv; [|exact I3]; unfold s5; destruct failed; coreclk).
+  assert (I5 : Inv s5) by (eapply CoreClk_Inv; [|exact I3]; unfold s5; coreclk).
   cbn [fst]. destruct (Z.ltb_spec (r_warm r) (clock s5)).
   - eapply CoreClk_Inv; [|exact I5]. coreclk.
   - apply (ins_event_inv (mkEv (r_warm r) 10 (nid s5) HWarm 0) s5); auto.
@@ -1099,8 +1100,9 @@ Proof.
   pose proof (exec_actions_hstep InConstruct (body p 0) s2) as HS.
   destruct (exec_actions InConstruct s2 (body p 0)) as [s3 failed]. cbn [fst] in HS.
   pose proof (hs_acct _ _ HS I2 A2) as A3.
+  destruct failed; [eapply CoreClk_Acct; [|exact A3]; coreclk|].
   set (s5 := set_ps PInit _).
-  assert (A5 : Acct s5) by (eapply CoreClk_Acct; [|exact A3]; unfold s5; destruct failed; coreclk).
+  assert (A5 : Acct s5) by (eapply CoreClk_Acct; [|exact A3]; unfold s5; coreclk).
   cbn [fst]. destruct (Z.ltb_spec (r_warm r) (clock s5)).
   - eapply CoreClk_Acct; [|exact A5]. coreclk.
   - intros x Hx. apply (Permutation_in _ (Permutation_sym (ins_event_live _ s5))).
